@@ -29,24 +29,70 @@ def materialise(pool, names, d):
     return out
 
 
-def invoke(d, files, p, fix, extra=(), stdin_text=None):
+def invoke(d, files, p, fix, extra=(), stdin_text=None, cfg=None):
     taskdir = os.path.join(d, "tasks")
     os.makedirs(taskdir, exist_ok=True)
     env = dict(os.environ)
     env.update({"VSG_VERIF_TRACE": "1", "VSG_VERIF_TASKDIR": taskdir, "VSG_VERIF_SCRUB": d, "PYTHONDONTWRITEBYTECODE": "1", "PYTHONHASHSEED": "0", "PYTHONWARNINGS": "ignore"})
     args = [PY, os.path.join(HARNESS, "vsg_traced.py")]
-    if files:
+    if files and cfg is None:
         args += ["-f"] + files
+    if cfg is not None:
+        args += ["-c", cfg]
     args += ["-p", str(p), "--json", os.path.join(d, "o.json"), "--junit", os.path.join(d, "o.xml")] + (["--fix"] if fix else []) + list(extra)
     pr = subprocess.run(args, stdout=subprocess.PIPE, stderr=subprocess.PIPE, env=env, cwd=d, timeout=900, input=(stdin_text.encode() if stdin_text is not None else None))
     tasks = []
+    procs = []  # per process: its B / E records in its own order
     for tf in sorted(glob.glob(os.path.join(taskdir, "tasks_*.jsonl"))):
+        evs = []
         with open(tf) as f:
             for line in f:
-                tasks.append(json.loads(line))
+                try:
+                    evs.append(json.loads(line))
+                except ValueError:
+                    pass  # a worker killed while writing its last line
+        evs.sort(key=lambda e: e.get("ord", 0))
+        procs.append(evs)
+        tasks += [e for e in evs if e.get("t") == "E"]
     tasks.sort(key=lambda t: (t["index"], t["pid"], t["seq"]))
     so, se = pr.stdout.decode(errors="replace"), pr.stderr.decode(errors="replace")
-    return {"rc": pr.returncode, "stdout": so, "stderr": se, "tasks": tasks}
+    arte = {"json": [], "junit": []}
+    try:
+        with open(os.path.join(d, "o.json")) as f:
+            arte["json"] = [os.path.basename(e.get("file_path", "?")) for e in json.load(f).get("files", [])]
+    except (OSError, ValueError):
+        arte["json"] = None
+    try:
+        with open(os.path.join(d, "o.xml")) as f:
+            arte["junit"] = [os.path.basename(m) for m in re.findall(r'<testcase name="([^"]*)"', f.read())]
+    except OSError:
+        arte["junit"] = None
+    return {"rc": pr.returncode, "stdout": so, "stderr": se, "tasks": tasks, "procs": procs, "arte": arte}
+
+
+def body(path):
+    import hashlib
+
+    try:
+        with open(path, "rb") as f:
+            return hashlib.sha1(f.read()).hexdigest()[:16]
+    except OSError:
+        return ""
+
+
+def perfile_config(d, names, bad):
+    """a configuration whose file_list names the files (command-line order); the ones in `bad` carry a per-file section that
+    names a rule which does not exist (a ConfigurationError for that file only)"""
+    lines = ["file_list:"]
+    for nm in names:
+        if nm in bad:
+            lines += ["  - %s:" % nm, "      rule:", "        no_such_rule_001:", "          disable: true"]
+        else:
+            lines.append("  - %s" % nm)
+    p = os.path.join(d, "perfile.yaml")
+    with open(p, "w") as f:
+        f.write("\n".join(lines) + "\n")
+    return p
 
 
 def printed_order(text):
@@ -59,18 +105,24 @@ def main():
     os.makedirs(work, exist_ok=True)
     pool = job["pool"]
     recs = []
+    mrecs = []
     nid = job.get("first_id", 0)
     solo = {}
 
-    def solo_result(name, fix):
-        k = (name, fix)
+    solo_abs = {}
+
+    def solo_result(name, fix, bad=False, percfg=False):
+        k = (name, fix, bad, percfg)
         if k not in solo:
-            d = os.path.join(work, "solo_%s_%d" % (re.sub(r"\W", "_", name), int(fix)))
+            d = os.path.join(work, "solo_%s_%d%d%d" % (re.sub(r"\W", "_", name), int(fix), int(bad), int(percfg)))
             shutil.rmtree(d, ignore_errors=True)
             os.makedirs(d)
             files = materialise(pool, [name], d)
-            r = invoke(d, files, 1, fix)
+            r = invoke(d, files, 1, fix, cfg=(perfile_config(d, [name], [name] if bad else []) if percfg else None))
             solo[k] = r["tasks"][0]["result"] if r["tasks"] else "no-task"
+            t = r["tasks"][0] if r["tasks"] else {"status": True, "stop": True, "wrote": False, "bodyAfter": ""}
+            cls = "cfgerr" if t["stop"] else ("rejected" if "Error while processing" in r["stderr"] else "ok")
+            solo_abs[k] = {"cls": cls, "err": bool(t["status"]) if cls == "ok" else False, "dirty": bool(t["wrote"]) if cls == "ok" else False, "fixed": t.get("bodyAfter", "")}
             shutil.rmtree(d, ignore_errors=True)
         return solo[k]
 
@@ -80,6 +132,7 @@ def main():
         os.makedirs(d)
         files = materialise(pool, sc["files"], d)
         stdin_ok = True
+        bad = sc.get("bad")
         if sc.get("stdin"):
             # the same single file through --stdin: report and status must be those of the by-name run
             with open(files[0]) as f:
@@ -96,19 +149,45 @@ def main():
             r = byname
             tb = "Traceback (most recent call last)" in (viastdin["stderr"] + viastdin["stdout"] + r["stderr"])
         else:
-            r = invoke(d, files, sc["p"], sc["fix"])
+            bad = sc.get("bad")
+            orig_body = [body(f) for f in files]
+            r = invoke(d, files, sc["p"], sc["fix"], cfg=(perfile_config(d, [os.path.basename(f) for f in files], bad) if bad is not None else None))
             tb = "Traceback (most recent call last)" in (r["stderr"] + r["stdout"])
         names = [os.path.basename(f) for f in files]
+        if not sc.get("stdin"):
+            # the record for spec/MainTrace.tla: per-process event sequences, print order, artefacts, disk
+            bad = sc.get("bad")
+            for nm in sorted(set(names)):
+                solo_result(nm, sc["fix"], bad=(bad is not None and nm in bad), percfg=bad is not None)
+            absf = [solo_abs[(nm, sc["fix"], bad is not None and nm in bad, bad is not None)] for nm in names]
+            idx = dict((nm, i + 1) for i, nm in enumerate(names))
+            procs = []
+            for evs in r["procs"]:
+                seq = [{"t": e["t"], "i": e["index"] + 1, "status": bool(e.get("status", False)), "stop": bool(e.get("stop", False)), "wrote": bool(e.get("wrote", False))} for e in evs]
+                if seq:
+                    procs.append(seq)
+            disk = []
+            for f, b0, a in zip(files, orig_body, absf):
+                b1 = body(f)
+                disk.append("orig" if b1 == b0 else ("fixed" if b1 == a["fixed"] else "other"))
+            out = [idx.get(os.path.basename(m), 0) for m in re.findall(r"^File:  (.*)$", r["stdout"], re.M)]
+            err = [idx.get(os.path.basename(m), 0) for m in re.findall(r"^Error while processing (.*?): ", r["stderr"], re.M)]
+            mrecs.append({"id": nid + 1, "jobs": sc["p"], "fix": bool(sc["fix"]), "files": [{"cls": a["cls"], "err": a["err"], "dirty": a["dirty"]} for a in absf],
+                          "procs": procs, "out": out, "err": err, "exit": 1 if r["rc"] else 0,
+                          "junit": [idx.get(x, 0) for x in (r["arte"]["junit"] or [])], "json": [idx.get(x, 0) for x in (r["arte"]["json"] or [])],
+                          "disk": disk, "names": names, "bad": bad or [], "percfg": bad is not None, "traceback": tb, "stderr_tail": r["stderr"][-300:]})
         nid += 1
         tasks = [{"pid": t["pid"], "seq": t["seq"], "index": t["index"], "file": t["file"], "leakBefore": t["leakBefore"], "leakAfter": t["leakAfter"], "result": t["result"], "status": t["status"]}
                  for t in r["tasks"]]
         stopped = "ERROR: Invalid configuration" in r["stderr"] or len(tasks) < len(names)
         recs.append({"id": nid, "files": names, "p": sc["p"], "fix": sc["fix"], "stdin": bool(sc.get("stdin")), "tasks": tasks, "leak0": tasks[0]["leakBefore"] if tasks else "",
-                     "solo": [[n, solo_result(n, sc["fix"])] for n in sorted(set(names))], "printed": printed_order(r["stdout"]), "exit": 1 if r["rc"] else 0, "stopped": stopped,
+                     "solo": [[n, solo_result(n, sc["fix"], bad=(bad is not None and n in bad), percfg=bad is not None)] for n in sorted(set(names))], "printed": printed_order(r["stdout"]), "exit": 1 if r["rc"] else 0, "stopped": stopped,
                      "stdinOk": stdin_ok, "traceback": tb, "pids": len(set(t["pid"] for t in tasks)), "stderr_tail": r["stderr"][-300:]})
         shutil.rmtree(d, ignore_errors=True)
     with open(job["out"], "w") as f:
         json.dump({"recs": recs}, f, separators=(",", ":"))
+    with open(job["out"] + ".main", "w") as f:
+        json.dump({"recs": mrecs}, f, separators=(",", ":"))
 
 
 if __name__ == "__main__":
